@@ -469,22 +469,290 @@ theorem serialize_visit (b : Bool) : ∀ G : List (TagKey × List String), (∀ 
       rw [flat_cons]
       rfl
 
-/- OPEN: reader ∘ writer at the JSON *text* level (not attempted for lack of time; the correspondence
-   run exercises it on every generated tag set, and Props/C19 refutes the full-strength text
-   round-trip on the current code with the D10 witness):
+/-! ### (c') tag-set codec, JSON text level: reader ∘ writer -/
 
-   theorem read_render (o : TagObj) :
-       readTagObj (renderObj o) = some (o.map fun m => (⟨m.1, m.1.toList.any needsEscape⟩, m.2))
+theorem hexDigitVal_hexDigit : ∀ k, k < 16 → hexDigitVal (Bytes.hexDigit k) = some k := by decide
 
-   theorem tagset_text_roundtrip_partial (tags : List Tag) (hne : tags ≠ [])
-       (hdom : ∀ t ∈ tags, t.plain = false → match t.name.toList with | [] => False | c :: _ => c ≠ '~')
-       (hplain : keysBorrowedOnly = true → ∀ t ∈ tags, t.name.toList.all (fun c => !needsEscape c)) :
-       ∃ text, encodeTags tags = some (some text) ∧ ∃ out, decodeTags keysBorrowedOnly text = .ok out ∧ out.Perm tags
+theorem hex4_ctrl (n : Nat) (h : n < 256) :
+    hex4 '0' '0' (Bytes.hexDigit (n / 16)) (Bytes.hexDigit (n % 16)) = some n := by
+  have h0 : hexDigitVal '0' = some 0 := by decide
+  unfold hex4
+  rw [h0, hexDigitVal_hexDigit (n / 16) (by omega), hexDigitVal_hexDigit (n % 16) (by omega)]
+  simp only [Option.some.injEq]
+  omega
 
-   Plan: `parseStrBody (s.flatMap renderChar ++ '"' :: rest) acc esc
-            = some (acc.reverse ++ s, esc || s.any needsEscape, rest)` by induction on `s` (one case per
-   branch of `renderChar`; the `\u00XX` branch needs `hex4 '0' '0' (hexDigit (n/16)) (hexDigit (n%16)) = n`
-   for n < 32, a finite check), then `parseStrArray` / `parseMembers` by induction on the lists with
-   enough fuel (`text.length + 1` bounds the number of members), then compose with `serialize_visit`. -/
+theorem char_eq_of_toNat {c : Char} {n : Nat} (h : c.toNat = n) : c = Char.ofNat n := by
+  rw [← h, Char.ofNat_toNat]
+
+/-- one character: the reader undoes `renderChar` -/
+theorem parse_renderChar (c : Char) (rest acc : List Char) (esc : Bool) :
+    parseStrBody (renderChar c ++ rest) acc esc = parseStrBody rest (c :: acc) (esc || needsEscape c) := by
+  unfold renderChar
+  split
+  · rename_i h; subst h; simp [parseStrBody.eq_4, needsEscape]
+  split
+  · rename_i h; subst h; simp [parseStrBody.eq_5, needsEscape]
+  split
+  · rename_i h; subst h; simp [parseStrBody.eq_9, needsEscape]
+  split
+  · rename_i h; subst h; simp [parseStrBody.eq_10, needsEscape]
+  split
+  · rename_i h; subst h; simp [parseStrBody.eq_11, needsEscape]
+  split
+  · rename_i h; have := char_eq_of_toNat h; subst this; simp [parseStrBody.eq_7, needsEscape]
+  split
+  · rename_i h; have := char_eq_of_toNat h; subst this; simp [parseStrBody.eq_8, needsEscape]
+  split
+  · rename_i h
+    have hne : needsEscape c = true := by simp [needsEscape, h]
+    simp only [List.cons_append, List.nil_append, parseStrBody.eq_3, hex4_ctrl c.toNat (by omega)]
+    rw [if_neg (by omega), if_neg (by omega), Char.ofNat_toNat, hne, Bool.or_true]
+  · rename_i h1 h2 _ _ _ _ _ h3
+    have hne : needsEscape c = false := by simp [needsEscape, h1, h2, h3]
+    simp only [List.cons_append, List.nil_append]
+    rw [parseStrBody.eq_14 _ _ _ _ (fun h => h1 h) (fun _ _ _ _ _ h _ => h2 h) (fun _ _ h _ => h2 h) (fun h _ => h2 h),
+      if_neg h3, hne, Bool.or_false]
+
+theorem parse_body : ∀ (s rest acc : List Char) (esc : Bool),
+    parseStrBody (s.flatMap renderChar ++ '"' :: rest) acc esc
+      = some (acc.reverse ++ s, esc || s.any needsEscape, rest) := by
+  intro s
+  induction s with
+  | nil => intro rest acc esc; simp [parseStrBody.eq_2]
+  | cons c s ih =>
+    intro rest acc esc
+    rw [List.flatMap_cons, List.append_assoc, parse_renderChar, ih]
+    simp [Bool.or_assoc]
+
+theorem renderStr_append (s rest : List Char) :
+    renderStr s ++ rest = '"' :: (s.flatMap renderChar ++ '"' :: rest) := by simp [renderStr]
+
+/-- `readString (writeString s ++ rest) = (s, had an escape, rest)` -/
+theorem parse_renderStr (s rest : List Char) :
+    parseStrBody (s.flatMap renderChar ++ '"' :: rest) [] false = some (s, s.any needsEscape, rest) := by
+  rw [parse_body]; simp
+
+theorem skipWs_quote (r : List Char) : skipWs ('"' :: r) = '"' :: r := by simp [skipWs, isWs]
+theorem skipWs_comma (r : List Char) : skipWs (',' :: r) = ',' :: r := by simp [skipWs, isWs]
+theorem skipWs_colon (r : List Char) : skipWs (':' :: r) = ':' :: r := by simp [skipWs, isWs]
+theorem skipWs_rbracket (r : List Char) : skipWs (']' :: r) = ']' :: r := by simp [skipWs, isWs]
+theorem skipWs_lbracket (r : List Char) : skipWs ('[' :: r) = '[' :: r := by simp [skipWs, isWs]
+theorem skipWs_rbrace (r : List Char) : skipWs ('}' :: r) = '}' :: r := by simp [skipWs, isWs]
+theorem skipWs_lbrace (r : List Char) : skipWs ('{' :: r) = '{' :: r := by simp [skipWs, isWs]
+
+theorem renderStrs_cons2 (v w : String) (r : List String) :
+    renderStrs (v :: w :: r) = renderStr v.toList ++ ',' :: renderStrs (w :: r) := by
+  simp [renderStrs]
+
+theorem renderStrs_length : ∀ vs : List String, vs.length ≤ (renderStrs vs).length := by
+  intro vs
+  induction vs with
+  | nil => simp
+  | cons v vs ih =>
+    cases vs with
+    | nil => simp [renderStrs, renderStr]
+    | cons w r =>
+      rw [renderStrs_cons2]
+      simp only [List.length_append, List.length_cons] at ih ⊢
+      omega
+
+/-- a non-empty array of strings after `[` -/
+theorem parse_strs : ∀ (vs : List String) (fuel : Nat) (first : Bool) (rest : List Char) (acc : List String),
+    vs ≠ [] → vs.length ≤ fuel →
+    parseStrArray fuel first (renderStrs vs ++ ']' :: rest) acc = some (acc.reverse ++ vs, rest) := by
+  intro vs
+  induction vs with
+  | nil => intro _ _ _ _ h; exact absurd rfl h
+  | cons v vs ih =>
+    intro fuel first rest acc _ hf
+    cases fuel with
+    | zero => simp at hf
+    | succ f =>
+      cases vs with
+      | nil =>
+        simp only [renderStrs, renderStr_append]
+        unfold parseStrArray
+        simp only [skipWs_quote, parse_renderStr, skipWs_rbracket, String.ofList_toList]
+        simp
+      | cons w r =>
+        rw [renderStrs_cons2, List.append_assoc, renderStr_append]
+        unfold parseStrArray
+        simp only [skipWs_quote, parse_renderStr, List.cons_append, skipWs_comma, String.ofList_toList]
+        rw [ih f false rest (v :: acc) (by simp) (by simpa using hf)]
+        simp
+
+/-- `EntryTagValues`: a string, or an array of strings (any length, including none) -/
+theorem parse_val (v : TagVal) (fuel : Nat) (rest : List Char) (hf : (renderVal v).length ≤ fuel) :
+    parseTagVal fuel (renderVal v ++ rest) = some (v, rest) := by
+  cases v with
+  | single s =>
+    simp only [renderVal, renderStr_append]
+    unfold parseTagVal
+    simp only [skipWs_quote, parse_renderStr, String.ofList_toList]
+  | multiple vs =>
+    have hl := renderStrs_length vs
+    simp only [renderVal, List.length_cons, List.length_append] at hf
+    simp only [renderVal, List.cons_append, List.append_assoc, List.nil_append]
+    unfold parseTagVal
+    simp only [skipWs_lbracket]
+    cases vs with
+    | nil =>
+      cases fuel with
+      | zero => simp at hf
+      | succ f => simp [renderStrs, parseStrArray, skipWs_rbracket]
+    | cons v r =>
+      rw [parse_strs (v :: r) fuel true rest [] (by simp) (by omega)]
+      simp
+
+/-- a member as the reader delivers it -/
+def tokOf (m : String × TagVal) : KeyTok × TagVal := (⟨m.1, m.1.toList.any needsEscape⟩, m.2)
+
+theorem renderMembers_cons2 (m m' : String × TagVal) (r : TagObj) :
+    renderMembers (m :: m' :: r) = renderStr m.1.toList ++ ':' :: renderVal m.2 ++ ',' :: renderMembers (m' :: r) := by
+  obtain ⟨k, v⟩ := m
+  simp [renderMembers]
+
+theorem renderMembers_one (m : String × TagVal) :
+    renderMembers [m] = renderStr m.1.toList ++ ':' :: renderVal m.2 := by
+  obtain ⟨k, v⟩ := m
+  simp [renderMembers]
+
+/-- a non-empty member list after `{` -/
+theorem parse_members : ∀ (ms : TagObj) (fuel : Nat) (first : Bool) (rest : List Char) (acc : List (KeyTok × TagVal)),
+    ms ≠ [] → (renderMembers ms).length ≤ fuel →
+    parseMembers fuel first (renderMembers ms ++ '}' :: rest) acc = some (acc.reverse ++ ms.map tokOf, rest) := by
+  intro ms
+  induction ms with
+  | nil => intro _ _ _ _ h; exact absurd rfl h
+  | cons m ms ih =>
+    intro fuel first rest acc _ hf
+    cases ms with
+    | nil =>
+      rw [renderMembers_one] at hf ⊢
+      simp only [List.length_append, List.length_cons] at hf
+      cases fuel with
+      | zero => omega
+      | succ f =>
+        rw [List.append_assoc, renderStr_append]
+        unfold parseMembers
+        simp only [skipWs_quote, parse_renderStr, List.cons_append, skipWs_colon, String.ofList_toList]
+        rw [parse_val m.2 (f + 1) ('}' :: rest) (by omega)]
+        simp [skipWs_rbrace, tokOf]
+    | cons m' r =>
+      rw [renderMembers_cons2] at hf ⊢
+      simp only [List.length_append, List.length_cons] at hf
+      cases fuel with
+      | zero => omega
+      | succ f =>
+        rw [List.append_assoc, renderStr_append]
+        unfold parseMembers
+        simp only [skipWs_quote, parse_renderStr, List.cons_append, List.append_assoc, skipWs_colon,
+          String.ofList_toList]
+        rw [parse_val m.2 (f + 1) _ (by omega)]
+        simp only [skipWs_comma]
+        rw [ih f false rest _ (List.cons_ne_nil _ _) (by omega)]
+        simp [tokOf]
+
+/-- reader ∘ writer on the whole object: every member comes back, with the "spelled with an
+    escape" flag of its key -/
+theorem read_render (o : TagObj) : readTagObj (renderObj o) = some (o.map tokOf) := by
+  unfold readTagObj renderObj
+  simp only [List.cons_append, skipWs_lbrace]
+  cases o with
+  | nil => simp [renderMembers, parseMembers, skipWs_rbrace, skipWs]
+  | cons m r =>
+    rw [parse_members (m :: r) _ true [] [] (by simp) (by simp only [List.length_append, List.length_cons]; omega)]
+    simp [skipWs]
+
+
+theorem visitMap_tok (b : Bool) : ∀ obj : TagObj,
+    (b = true → ∀ m ∈ obj, m.1.toList.any needsEscape = false) →
+    visitMap b (obj.map tokOf) = visitMap b (obj.map fun m => (⟨m.1, false⟩, m.2)) := by
+  intro obj
+  induction obj with
+  | nil => intro _; rfl
+  | cons m r ih =>
+    intro h
+    have ih' := ih (fun hb x hx => h hb x (List.mem_cons_of_mem _ hx))
+    cases b with
+    | false => simp only [List.map_cons, visitMap, tokOf, Bool.false_and, ih']
+    | true =>
+      have hm := h rfl m (by simp)
+      simp only [List.map_cons, visitMap, tokOf, hm, Bool.and_false, ih']
+
+theorem serialize_keys : ∀ (G : List (TagKey × List String)) (obj : TagObj),
+    G.mapM (fun (g : TagKey × List String) => memberOf g.1 g.2) = some obj →
+    ∀ m ∈ obj, ∃ g ∈ G, m.1 = g.1.render := by
+  intro G
+  induction G with
+  | nil => intro obj h m hm; simp at h; subst h; simp at hm
+  | cons g rest ih =>
+    intro obj h m hm
+    rw [List.mapM_cons] at h
+    cases hg : memberOf g.1 g.2 with
+    | none => simp [hg] at h
+    | some x =>
+      cases hr : rest.mapM (fun (g : TagKey × List String) => memberOf g.1 g.2) with
+      | none => simp [hg, hr] at h
+      | some xs =>
+        simp [hg, hr] at h
+        subst h
+        rcases List.mem_cons.mp hm with rfl | hm
+        · refine ⟨g, by simp, ?_⟩
+          unfold memberOf at hg
+          split at hg
+          · cases hg; rfl
+          · split at hg
+            · cases hg; rfl
+            · cases hg
+        · obtain ⟨g', hg', he⟩ := ih xs hr m hm
+          exact ⟨g', List.mem_cons_of_mem _ hg', he⟩
+
+theorem render_plain (k : TagKey) (h : k.name.toList.all (fun c => !needsEscape c) = true) :
+    k.render.toList.any needsEscape = false := by
+  have h' : k.name.toList.any needsEscape = false := by
+    rw [List.any_eq_false]
+    intro c hc
+    have := List.all_eq_true.mp h c hc
+    simpa using this
+  unfold TagKey.render
+  split
+  · exact h'
+  · have : ("~" ++ k.name).toList = '~' :: k.name.toList := by simp [String.toList_append]
+    rw [this, List.any_cons, h']
+    decide
+
+/-- writer then reader at the level of the JSON text: for every non-empty tag list of the domain.
+    With borrowed keys (`b = true`) the names must be spelled without escapes. -/
+theorem text_roundtrip (b : Bool) (tags : List Tag) (hne : tags ≠ [])
+    (hdom : ∀ t ∈ tags, t.plain = false → match t.name.toList with | [] => False | c :: _ => c ≠ '~')
+    (hplain : b = true → ∀ t ∈ tags, t.name.toList.all (fun c => !needsEscape c) = true) :
+    ∃ text, encodeTags tags = some (some text) ∧ ∃ out, decodeTags b text = .ok out ∧ out.Perm tags := by
+  have inv := groupTags_inv tags
+  have hall : ∀ g ∈ groupTags tags, g.2 ≠ [] ∧ KeyOK g.1 := by
+    intro g hg
+    refine ⟨inv.nonempty g hg, ?_⟩
+    obtain ⟨t, ht, hk⟩ := inv.keys g hg
+    intro henc
+    rw [hk] at henc ⊢
+    simp only [keyOfTag] at henc ⊢
+    exact hdom t ht (by simpa using henc)
+  obtain ⟨obj, ho, hv⟩ := serialize_visit b (groupTags tags) hall
+  have hser : serializeSet tags = some obj := by unfold serializeSet; rw [← ho]
+  refine ⟨String.ofList (renderObj obj), ?_, flat (groupTags tags), ?_, inv.perm⟩
+  · unfold encodeTags
+    have : tags.isEmpty = false := by cases tags with | nil => exact absurd rfl hne | cons _ _ => rfl
+    simp [this, hser]
+  · unfold decodeTags
+    rw [String.toList_ofList, read_render]
+    simp only
+    rw [visitMap_tok b obj ?_, hv]
+    intro hb m hm
+    obtain ⟨g, hg, he⟩ := serialize_keys _ obj ho m hm
+    obtain ⟨t, ht, hk⟩ := inv.keys g hg
+    rw [he]
+    apply render_plain
+    rw [hk]
+    exact hplain hb t ht
 
 end Askar.Ffi.Lemmas
